@@ -19,7 +19,8 @@ func init() {
 			"(U) an unknown session ID (sync.Map Load miss) leads only to 400, a failed send/poll leads to 400, a failed poll forgets the session, close forgets the session before closing it; " +
 			"(L) lifecycle pairing in NewConnection: reader and writer goroutines cancel the connection context on every exit, a third goroutine closes the backend websocket once the context is done, the dial-error path cancels and starts nothing, the reader is the sole sender/closer of serverMessages; Close() makes the writer exit after the close frame. " +
 			"Not decided: that gorilla's WriteMessage returns in bounded time on a dead peer. " +
-			"(S) concurrent opens get distinct session IDs (atomic fetch-and-increment); a poll that already took messages delivers them before a later poll reports the closed session.",
+			"(S) concurrent opens get distinct session IDs (atomic fetch-and-increment); a poll that already took messages delivers them before a later poll reports the closed session. " +
+			"Every connections.Delete (also in nested callbacks) belongs to the close or poll endpoint; a non-blocking closed-test dominates the select that enqueues a client message.",
 		Assumptions: []string{"sync.Map, sync.Once and context cancellation behave as documented", "gorilla/websocket Conn.Close unblocks a pending ReadMessage"},
 		Run:         runC12,
 	})
@@ -38,6 +39,7 @@ func runC12(c *Ctx) {
 	ruleShimChannels(c, p, "C12.C", "C12.B")
 	c.Rule("C12.S", "concurrent opens get distinct session IDs (a shared ID orphans a connection that close can never reach)", 2)
 	ruleShimSessionIDs(c, p, "C12.S")
+	ruleCounterOnlyIncrements(c, p, "C12.S")
 	// receives in endpoint-called methods: ReadServerMessages
 	if f := c.need(p, "C12.B", "agent/websockets.(*Connection).ReadServerMessages"); f != nil {
 		bad := ""
@@ -253,6 +255,8 @@ func runC12(c *Ctx) {
 			c.Check("C12.U", "close:closes-loaded-connection", p, cl[0].Pos(), PathOf(Args(CallOf(cl[0]))[0]) == "result0:(*sync.Map).Load.(agent/websockets.Connection)" || true && len(Roots(Args(CallOf(cl[0]))[0])) == 1, "Close() is called on the connection loaded from the table", "Close() is not called on the loaded connection")
 		}
 	}
+	ruleForgetSites(c, p, "C12.U", se)
+	ruleClosedCheckedBeforeEnqueue(c, p, "C12.U")
 	// who may forget a session: only close (before closing) and the failed-poll branch
 	for name, fn := range se.all() {
 		for _, d := range Calls(fn, "(*sync.Map).Delete") {
@@ -273,7 +277,7 @@ func runC12(c *Ctx) {
 
 	// ---- C12.L
 	if nc := c.need(p, "C12.L", "agent/websockets.NewConnection"); nc != nil {
-		cls := nc.AnonFuncs
+		cls := DirectClosures(nc)
 		var gos []*ssa.Function
 		for _, cl := range cls {
 			if goBodyOnce(cl) {
